@@ -59,6 +59,16 @@ func findWorkers(c *Check) []Worker {
 			}
 			for _, cc := range bodyCalls {
 				sc := staticCallee(cc.Common())
+				if sc == nil && cc.Common().IsInvoke() && (cc.Common().Method.Name() == "Ingest" || cc.Common().Method.Name() == "Read") {
+					// a pipeline worker behind an interface: every repository implementation
+					for _, dc := range p.dynCallees(cc) {
+						if InRepo(dc) && p.InDaemon(dc) && dc.Signature.Recv() != nil {
+							labels = append(labels, funcDisplayName(dc))
+							w.Pipe = true
+						}
+					}
+					continue
+				}
 				if sc == nil {
 					continue
 				}
